@@ -36,6 +36,7 @@ type Proc struct {
 	dead   bool
 	pmu    sync.Mutex // guards cmd against Interrupt from another goroutine
 	intr   atomic.Bool
+	lastTimeout int
 	// statistics
 	Queries  int
 	ByResult [3]int
@@ -78,6 +79,7 @@ func (p *Proc) start() error {
 	p.pmu.Unlock()
 	p.in, p.out = in, bufio.NewReaderSize(out, 1<<16)
 	p.sent, p.open, p.dead = 0, false, false
+	p.lastTimeout = -1
 	if p.isCVC5 {
 		fmt.Fprintln(p.in, "(set-logic ALL)")
 	} else {
@@ -215,10 +217,14 @@ func (p *Proc) Check(sc *Script, extra []string, timeout time.Duration, vars []*
 	}
 	p.sent = len(sc.Lines)
 	ms := int(timeout / time.Millisecond)
-	if p.isCVC5 {
-		fmt.Fprintf(&sb, "(set-option :tlimit-per %d)\n", ms)
-	} else {
-		fmt.Fprintf(&sb, "(set-option :timeout %d)\n", ms)
+	if ms != p.lastTimeout {
+		// re-sending the option on every query costs z3 ~7 ms each (measured)
+		if p.isCVC5 {
+			fmt.Fprintf(&sb, "(set-option :tlimit-per %d)\n", ms)
+		} else {
+			fmt.Fprintf(&sb, "(set-option :timeout %d)\n", ms)
+		}
+		p.lastTimeout = ms
 	}
 	sb.WriteString("(push 1)\n")
 	for _, e := range extra {
